@@ -1,0 +1,29 @@
+//go:build verif
+
+package calendar
+
+// VerifResetYearCache empties the one-slot year cache (fresh-process state).
+func VerifResetYearCache() {
+	lock.Lock()
+	CACHE_YEAR = nil
+	lock.Unlock()
+}
+
+// VerifYearLockFree reports whether the year-cache mutex can be taken right now.
+func VerifYearLockFree() bool {
+	if lock.TryLock() {
+		lock.Unlock()
+		return true
+	}
+	return false
+}
+
+// VerifCachedYear returns the year currently held by the cache (0 if none).
+func VerifCachedYear() int {
+	lock.Lock()
+	defer lock.Unlock()
+	if CACHE_YEAR == nil {
+		return 0
+	}
+	return CACHE_YEAR.year
+}
